@@ -35,7 +35,11 @@ static char *slurp(const char *path, size_t *len) {
  * header after Content-Range, 8 no CRLF before the first delimiter,
  * 16 extra part header before Content-Range is omitted (Content-Range first),
  * 32 force multipart even for a single range, 64 a 33-40 KB header field in front of Content-Range in every second part */
-static int build_response(const char *rstr, const char *B, size_t Blen, int style, const char *boundary, struct resp *rp) {
+static int build_response(const char *rstr, const char *B, size_t Blen, int style, const char *boundary_tok, struct resp *rp) {
+    /* script tokens cannot hold a blank: '~' in the token stands for a space inside the (quoted) boundary */
+    char boundary[400];
+    snprintf(boundary, sizeof(boundary), "%s", boundary_tok);
+    for(char *q = boundary; *q; q++) if(*q == '~') *q = ' ';
     size_t *starts = g_starts, *ends = g_ends;
     int n = 0;
     const char *p = rstr;
@@ -55,7 +59,18 @@ static int build_response(const char *rstr, const char *B, size_t Blen, int styl
     rp->hdr = malloc(hcap);
     rp->body = malloc(bcap);
     char tmp[512];
-    int k = snprintf(tmp, sizeof(tmp), "HTTP/1.1 206 Partial Content\r\n");
+    int k;
+    /* style 256: the transfer saw an earlier, complete response header block first (a followed redirect); 512: a proxy's
+     * "200 Connection established" block; 128: the status line as an HTTP/2 server's arrives (no reason phrase) */
+    if(style & 256) {
+        k = snprintf(tmp, sizeof(tmp), "HTTP/1.1 302 Found\r\nLocation: http://mirror.example/file.zck\r\nContent-Length: 0\r\n\r\n");
+        APPEND(rp->hdr, rp->hdr_len, hcap, tmp, k);
+    }
+    if(style & 512) {
+        k = snprintf(tmp, sizeof(tmp), "HTTP/1.1 200 Connection established\r\n\r\n");
+        APPEND(rp->hdr, rp->hdr_len, hcap, tmp, k);
+    }
+    k = snprintf(tmp, sizeof(tmp), (style & 128) ? "HTTP/2 206 \r\n" : "HTTP/1.1 206 Partial Content\r\n");
     APPEND(rp->hdr, rp->hdr_len, hcap, tmp, k);
     for(int i = 0; i < n; i++)
         if(starts[i] > ends[i] || ends[i] >= Blen) return 0; /* unsatisfiable: caller logs */
